@@ -8,6 +8,9 @@ namespace Arca.Expected.C07
 /-- The recover handlers of the engine library.  Both turn ANY recovered value into an error with `%v`; neither asserts a
     type on it (`Arca.Props.C07.no_unchecked_assertion_on_recovered_value` is about the regenerated table, not this list). -/
 def recoverSites : List (String × String) := [
+  -- preparation: the SDK panics while a scope is assembled from an inconsistent inferred output schema (a one-of
+  -- discriminator that is also a field of an option); turned into an "inferred schema is invalid" error (fix 68cf47f; C11)
+  ("internal/infer/infer.go", "Scope"),
   -- preparation: the SDK panics on a default value of the workflow input section that it cannot decode; turned into an
   -- "invalid workflow" error while the workflow is prepared (fix 2d63d83), so that it cannot happen during a run
   ("workflow/executor.go", "validateDefaults"),
